@@ -14,6 +14,7 @@ import (
 	"flag"
 	"fmt"
 	"hash/fnv"
+	"io"
 	"os"
 	"path/filepath"
 	"runtime/debug"
@@ -25,6 +26,7 @@ import (
 	"time"
 
 	pdlog "github.com/pingcap/log"
+	"go.uber.org/zap"
 	"go.uber.org/zap/zapcore"
 	"pgregory.net/rapid"
 )
@@ -367,8 +369,33 @@ func Known(key string) bool {
 	return false
 }
 
-// Quiet raises pd's global log level to error so that shard logs stay small.
-func Quiet() { pdlog.SetLevel(zapcore.ErrorLevel) }
+// Quiet raises pd's global log level to error so that shard logs stay small. In every fourth shard process
+// (see SilenceLog) the log level is debug instead and the encoded entries are thrown away.
+func Quiet() {
+	if debugLogShard() {
+		SilenceLog()
+		return
+	}
+	pdlog.SetLevel(zapcore.ErrorLevel)
+}
+
+func debugLogShard() bool {
+	n, err := strconv.Atoi(os.Getenv("VERIF_SHARD"))
+	return err == nil && n%4 == 3 && os.Getenv("VERIF_REPLAY") == ""
+}
+
+// SilenceLog installs a pd logger that prints nothing. The log level is configuration and must not change
+// behaviour: in every fourth shard process (VERIF_SHARD = 3, 7, ...) every entry down to debug level is still
+// ENCODED (zap.Stringer fields are evaluated, e.g. core.RegionToHexMeta) and the bytes are discarded, so a log
+// line with a side effect on what it prints shows up in the ordinary oracle of the property.
+func SilenceLog() {
+	if !debugLogShard() {
+		pdlog.ReplaceGlobals(zap.NewNop(), &pdlog.ZapProperties{Level: zap.NewAtomicLevel()})
+		return
+	}
+	core := zapcore.NewCore(zapcore.NewJSONEncoder(zap.NewProductionEncoderConfig()), zapcore.AddSync(io.Discard), zapcore.DebugLevel)
+	pdlog.ReplaceGlobals(zap.New(core), &pdlog.ZapProperties{Core: core, Level: zap.NewAtomicLevelAt(zapcore.DebugLevel)})
+}
 
 // Uni draws an integer in [0,n) uniformly from fair bits. rapid's integer and
 // SampledFrom generators are deliberately biased towards small values / early
